@@ -21,9 +21,20 @@ def run(tier):
                 chk.violation("%s outside the C07 Contract: %s" % (ev["e"], mc.pretty(ev)), mc.pretty(ev))
             for ev in events[1:3]:
                 chk.sample(mc.pretty(ev))
-    chk.count(evaluations=total, distinct=len(combos), traces=2)
+    # pointer-typed objects (cell, array element, whole array, struct field): the bytes written /
+    # decoded are the ABI's pointer representation, also where it is as wide as a host pointer
+    for tag in (("lp64u", "mask", "lp16") if thorough else ("lp64u",)):
+        tpath = mc.record(drv["mem_" + tag], wd, "ptr", tag, thorough)
+        events, bad = mc.validate(chk, tpath, "ptr/" + tag)
+        total += len(events)
+        for e in events:
+            if e["e"] in ("ptrload", "ptrstore"):
+                combos.add((e["e"], e["pos"], tag, e["cls"], e["out"]))
+        for b, ev in bad:
+            chk.violation("pointer %s outside the C07 Contract [%s]: %s" % (ev["e"], tag, mc.pretty(ev)), mc.pretty(ev))
+    chk.count(evaluations=total, distinct=len(combos), traces=3)
     chk.cov["exhaustive"] = False
-    chk.cov["scope"] = "two foreign ABIs (wasm32; lp16 where int != long) x 17 types + const-qualified pointees x 10 addresses (first bytes, every alignment 1..7, interior, ending at the last byte before " \
+    chk.cov["scope"] = "two foreign ABIs (wasm32; lp16 where int != long) x 17 types (+ pointer cells, arrays of pointers and pointer fields on lp64u, whose pointer representation is host-wide) + const-qualified pointees x 10 addresses (first bytes, every alignment 1..7, interior, ending at the last byte before " \
                        "the guard page) x boundary/random values x 4 surrounding byte patterns x 5 store paths / 6 load " \
                        "paths (deref, index, array element, volatile-to-volatile, to tainted, copy_and_verify on a pointer, " \
                        "copy_and_verify_range first/last element)"
